@@ -1887,6 +1887,9 @@ struct ReportDataResponder<'a, 'b, 'c, const NE: usize, C> {
     invoker: HandlerInvoker<'b, 'c, C>,
     event_reader: EventReader,
     events: &'a Events<NE>,
+    /// How much of the space reserved for the closing TLVs of the reply being
+    /// assembled is still held back
+    reserve_left: usize,
 }
 
 impl<'a, 'b, 'c, const NE: usize, C> ReportDataResponder<'a, 'b, 'c, NE, C>
@@ -1911,6 +1914,7 @@ where
             invoker,
             event_reader,
             events,
+            reserve_left: 0,
         }
     }
 
@@ -2014,6 +2018,9 @@ where
                 }
             }
 
+            // The closing of the array belongs to the reserved space: the reports
+            // might have filled everything else
+            self.release_reserve(1, wb)?;
             wb.end_container()?;
         }
 
@@ -2032,6 +2039,7 @@ where
         let accessor = self.invoker.exchange().accessor(&metadata)?;
 
         if let Some(event_reqs) = self.req.event_requests()? {
+            self.release_reserve(2, wb)?;
             wb.start_array(&TLVTag::Context(ReportDataRespTag::EventReports as _))?;
 
             // Validate concrete event paths against node metadata
@@ -2118,6 +2126,7 @@ where
                 }
             }
 
+            self.release_reserve(1, wb)?;
             wb.end_container()?;
         }
 
@@ -2183,6 +2192,17 @@ where
         }
 
         Ok(true)
+    }
+
+    /// Hand `size` bytes of the space reserved for the closing TLVs over to `wb`,
+    /// right before writing closing (or section-opening) TLVs of that size.
+    fn release_reserve(&mut self, size: usize, wb: &mut WriteBuf<'_>) -> Result<(), Error> {
+        let size = size.min(self.reserve_left);
+
+        wb.expand(size)?;
+        self.reserve_left -= size;
+
+        Ok(())
     }
 
     /// Send the reply to the peer, potentially opening another reply.
@@ -2267,9 +2287,10 @@ where
     }
 
     /// Start a reply by initializing the `WriteBuf` and writing the initial TLVs.
-    fn start_reply(&self, wb: &mut WriteBuf<'_>) -> Result<(), Error> {
+    fn start_reply(&mut self, wb: &mut WriteBuf<'_>) -> Result<(), Error> {
         wb.reset();
         wb.shrink(Self::LONG_READS_TLV_RESERVE_SIZE)?;
+        self.reserve_left = Self::LONG_READS_TLV_RESERVE_SIZE;
 
         wb.start_struct(&TLVTag::Anonymous)?;
 
@@ -2291,12 +2312,12 @@ where
 
     /// End a reply by writing the closing TLVs and potentially indicating that there are more chunks to send.
     fn end_reply(
-        &self,
+        &mut self,
         state: ReportDataChunkState,
         suppress_resp: bool,
         wb: &mut WriteBuf<'_>,
     ) -> Result<(), Error> {
-        wb.expand(Self::LONG_READS_TLV_RESERVE_SIZE)?;
+        self.release_reserve(self.reserve_left, wb)?;
 
         match state {
             ReportDataChunkState::ChunkingAttributes | ReportDataChunkState::ChunkingEvents => {
